@@ -87,6 +87,23 @@ pub fn scratch_dir(name: &str) -> String {
 	dir
 }
 
+/// The write end of a fresh pipe whose read end is ALREADY closed (so that the
+/// very first write meets EPIPE — no race with the child's start-up).
+fn dead_pipe_write_end() -> Option<Stdio> {
+	use std::os::unix::io::FromRawFd;
+	let mut fds = [0 as libc::c_int; 2];
+	// SAFETY: plain libc calls on a local array; the returned descriptors are
+	// owned here: the read end is closed at once, the write end is handed to
+	// `Stdio`, which closes it after spawning.
+	unsafe {
+		if libc::pipe(fds.as_mut_ptr()) != 0 {
+			return None;
+		}
+		libc::close(fds[0]);
+		Some(Stdio::from_raw_fd(fds[1]))
+	}
+}
+
 /// How the child's standard output is connected.
 pub enum Sink {
 	/// A pipe that is read to the end.
@@ -112,9 +129,15 @@ pub fn run_io(bin: &str, args: &[String], stdin_file: Option<std::fs::File>, sin
 		}
 	}
 	match sink {
-		Sink::Pipe | Sink::ClosedPipe => {
+		Sink::Pipe => {
 			cmd.stdout(Stdio::piped());
 		}
+		Sink::ClosedPipe => match dead_pipe_write_end() {
+			Some(w) => {
+				cmd.stdout(w);
+			}
+			None => return Run { status: Status::SpawnError("pipe()".into()), stdout: vec![], stderr: vec![] },
+		},
 		Sink::DevFull => match std::fs::OpenOptions::new().write(true).open("/dev/full") {
 			Ok(f) => {
 				cmd.stdout(Stdio::from(f));
@@ -175,9 +198,15 @@ pub fn run_stderr_sink(bin: &str, args: &[String], sink: Sink, timeout: Duration
 	let mut cmd = Command::new(bin);
 	cmd.args(args).stdin(Stdio::null()).stdout(Stdio::null());
 	match sink {
-		Sink::Pipe | Sink::ClosedPipe => {
+		Sink::Pipe => {
 			cmd.stderr(Stdio::piped());
 		}
+		Sink::ClosedPipe => match dead_pipe_write_end() {
+			Some(w) => {
+				cmd.stderr(w);
+			}
+			None => return Status::SpawnError("pipe()".into()),
+		},
 		Sink::DevFull => match std::fs::OpenOptions::new().write(true).open("/dev/full") {
 			Ok(f) => {
 				cmd.stderr(Stdio::from(f));
